@@ -314,6 +314,10 @@ func regressionCases(r *hxlib.Run, emit func(hxlib.Case)) {
 	mk("failed-insert-partially-applied",
 		fmt.Sprintf("seedstruct %s %s", hx([]byte("hmap:s")), hx([]byte(sj))),
 		m(`1|insert|hmap:s|{"Name":"changed","Score":"str"}`, "i=0"), m("2|get|hmap:s"))
+	// a key with an empty database name names no database: the write must be refused like the read is
+	mk("empty-database-name",
+		m(`1|create|:hmap:x|J{"a":1}`), m("2|get|:hmap:x"), m("3|get|hmap:hmap:x"), m("4|query|query hmap:", "q="+hx([]byte("hmap"))+":-:*"),
+		m(`5|update|:bolt:y|J{"a":1}`), m("6|get|:bolt:y"), m("7|get|bolt:bolt:y"), m(`8|insert|:hmap:x|{"b":1}`), m("9|delete|:hmap:x"))
 	// JSON payloads that are not objects must not be returned with their content replaced
 	mk("non-object-json",
 		m("1|create|bolt:j|J5", "o=0"), m("2|get|bolt:j"), m("3|create|bolt:j|J[1,2]", "o=0"), m("4|get|bolt:j"),
